@@ -517,6 +517,8 @@ def check(case, subproc=False) -> Verdict:
         if sim_bug is not None:
             if sim_bug.reject in REJ:
                 pb = compare_rejected(REJ[sim_bug.reject], o)
+            elif sim_bug.reject == 'missing':
+                pb = compare_rejected({'VALIDATION_ERROR', 'HARD_ERROR'}, o, executed_ok=True)
             elif sim_bug.reject:
                 pb = ('unmodelled', None)
             else:
